@@ -36,11 +36,23 @@ EXPLANATION = (
     "(evaluated from the module initialiser) contain every character b2a can emit for each length class, b2a strips "
     "'=' and lower-cases, a2b upper-cases and re-pads to a multiple of 8; base62: 62 distinct characters, the radix "
     "literal of all four functions is the alphabet size, encode/decode use the inverse translation tables; (8) s8 "
-    "contains no character b2a cannot emit (rejection of non-canonical trailing bits) - this clause FAILS on the "
-    "pinned tree (finding).  Undecided: the positional arithmetic of base62 and of Python's base64 module, rejection "
-    "of every other malformed input, struct's own behaviour.")
+    "contains no character b2a cannot emit (rejection of non-canonical trailing bits; was a finding, repaired by "
+    "7af941e); (9) version dispatch of the share-layout readers (ReadBucketProxy._parse_offsets, Share._satisfy_offsets/"
+    "_desire_offsets, unpack_share, unpack_sdmf/mdmf_checkstring, MDMFSlotReadProxy._process_encoding_parameters): the "
+    "reader's CFG is walked once per representative value of the unpacked version field (each constant the tests "
+    "compare with, its neighbours, 0 and the field maximum), evaluating the tests over the version variable; a value no "
+    "writer emits never reaches the normal exit (unsatisfiable checks and fall-through else branches are found this "
+    "way), every value the writers emit (constants folded from the writers' pack calls / interfaces) does; (10) storage "
+    "containers: schema_from_version/schema_from_header return a schema only on the edge where it matches the header "
+    "and None otherwise, ShareFile/MutableShareFile.__init__ cannot complete without the not-None fact, is_valid_header "
+    "is false when the lookup fails.  Undecided: the positional arithmetic of base62 and of Python's base64 module, "
+    "rejection of every other malformed input, struct's own behaviour; readers that branch on a version stored in an "
+    "attribute by another method (MDMFSlotReadProxy._process_offsets and later methods rely on "
+    "_process_encoding_parameters having raised) are not walked; a dispatch through a computed (non-literal) table is "
+    "reported rather than understood.")
 TECHNIQUE = ("static analysis: constant folding of struct formats/offsets and table agreement between pack and "
-             "unpack sites; straight-line symbolic normal forms of the netstring and UEB parsers")
+             "unpack sites; straight-line symbolic normal forms of the netstring and UEB parsers; concrete-value CFG "
+             "walks of the version dispatch with edge facts")
 
 LEASE = "storage.lease:LeaseInfo"
 SF = "storage.immutable:ShareFile"
@@ -290,6 +302,270 @@ def schema_entries(m, factory_tail):
         v = kwarg(c, "version") or arg(c, 0)
         s = kwarg(c, "lease_serializer") or arg(c, 1)
         out.append((v.value if isinstance(v, ast.Constant) else None, s.id if isinstance(s, ast.Name) else None, c))
+    return out
+
+
+# --- version dispatch: concrete-value walks over a reader's CFG -------------------
+class _Undecided(Exception):
+    pass
+
+
+def _is_struct_unpack(e):
+    return isinstance(e, ast.Call) and call_name(e) == "struct.unpack" and len(e.args) >= 2
+
+
+def _reads_container_start(fn, e, depth=3):
+    """`e` is the leading bytes of a container: X[:k] / X[0:k] / Y.get(0, k), or a local whose only definition is."""
+    if isinstance(e, ast.Name) and depth > 0:
+        ds = all_defs(fn).get(e.id, [])
+        return len(ds) == 1 and ds[0] is not None and _reads_container_start(fn, ds[0], depth - 1)
+    if isinstance(e, ast.Subscript) and isinstance(e.slice, ast.Slice) and e.slice.step is None:
+        lo = e.slice.lower
+        return lo is None or (isinstance(lo, ast.Constant) and lo.value == 0)
+    if isinstance(e, ast.Call) and call_tail(e) == "get" and e.args:
+        return isinstance(e.args[0], ast.Constant) and e.args[0].value == 0
+    return False
+
+
+def version_bindings(fn):
+    """{cfg node id: (local name, unpack call)} for the statements that bind a local to packed value 0 of a
+    struct.unpack over the leading bytes of a container (the version field of every container format here)."""
+    out = {}
+    for n in fn.cfg().nodes:
+        a = n.ast
+        if n.kind != "stmt" or not isinstance(a, ast.Assign) or len(a.targets) != 1:
+            continue
+        t, v = a.targets[0], a.value
+        c = nm = None
+        if _is_struct_unpack(v) and isinstance(t, (ast.Tuple, ast.List)) and t.elts and isinstance(t.elts[0], ast.Name):
+            c, nm = v, t.elts[0].id
+        elif isinstance(v, ast.Subscript) and _is_struct_unpack(v.value) and isinstance(v.slice, ast.Constant) \
+                and v.slice.value == 0 and isinstance(t, ast.Name):
+            c, nm = v.value, t.id
+        if c is not None and _reads_container_start(fn, c.args[1]):
+            out[n.id] = (nm, c)
+    return out
+
+
+class VersionWalk:
+    """Decides, for one concrete value of a reader's version field, which CFG nodes the reader can reach after the
+    statement that binds the field: tests over the version variable are evaluated (comparisons, chains, membership,
+    constants folded from the package), every other test keeps both edges, a dict literal subscripted by the version
+    leaves by its KeyError when the value is no key."""
+
+    def __init__(self, fn, F):
+        self.fn, self.F = fn, F
+        self.cfg = fn.cfg()
+        self.bind = version_bindings(fn)
+        names = {nm for nm, _c in self.bind.values()}
+        if not self.bind:
+            raise AnchorVanished("%s no longer unpacks the version field from the start of the container" % fn.qual)
+        if len(names) != 1:
+            raise AnalysisError("%s binds several version variables: %s" % (fn.qual, sorted(names)))
+        self.name = names.pop()
+        defs = all_defs(fn)
+        self.vnames = {self.name}
+        for _i in range(3):
+            for nm, ds in defs.items():
+                if ds and all(isinstance(d, ast.Name) and d.id in self.vnames for d in ds):
+                    self.vnames.add(nm)
+        self.defs = defs
+        # the walks start where the field is first bound (a later re-unpack of the same leading bytes is only met
+        # under the facts established since the first one)
+        first, _p = explore(self.cfg, 0, lambda n, lab, nxt, st: None if n.id in self.bind else 0)
+        self.starts = [self.cfg.nodes[i] for i in sorted(self.bind) if (i, 0) in first]
+        if not self.starts:
+            raise AnchorVanished("%s: the version binding is unreachable" % fn.qual)
+        # value range of the field
+        self.fieldmax = 0
+        for _nm, c in self.bind.values():
+            fmt = F.expr(c.args[0], fn)
+            if not isinstance(fmt, str) or not struct_fields(fmt):
+                raise AnalysisError("%s: version field format %s does not fold" % (fn.qual, src(fn, c.args[0])))
+            bo = fmt[0] if fmt[0] in "@=<>!" else ""
+            f0 = struct_fields(fmt)[0]
+            if f0[0] not in "BHILQ":
+                raise AnalysisError("%s: version field has format %r" % (fn.qual, field_fmt(f0)))
+            self.fieldmax = max(self.fieldmax, 2 ** (8 * _struct.calcsize(bo + field_fmt(f0))) - 1)
+        self.states = 0
+
+    def mentions(self, e):
+        return any(isinstance(x, ast.Name) and x.id in self.vnames for x in ast.walk(e))
+
+    def constants(self):
+        """Integers the reader's tests compare the version with."""
+        out = set()
+        for n in self.cfg.nodes:
+            if n.kind == "test" and self.mentions(n.ast):
+                for x in ast.walk(n.ast):
+                    if isinstance(x, (ast.Name, ast.Attribute, ast.Constant)) and not (
+                            isinstance(x, ast.Name) and x.id in self.vnames):
+                        v = x.value if isinstance(x, ast.Constant) else self.F.expr(x, self.fn)
+                        if isinstance(v, int) and not isinstance(v, bool):
+                            out.add(v)
+        return out
+
+    def ev(self, e, u, subst=None):
+        if subst and id(e) in subst:
+            return subst[id(e)]
+        if isinstance(e, ast.Constant):
+            return e.value
+        if isinstance(e, ast.Name):
+            if e.id in self.vnames:
+                return u
+            ds = self.defs.get(e.id, [])
+            if subst and len(ds) == 1 and ds[0] is not None and id(ds[0]) in subst:
+                return subst[id(ds[0])]
+        if isinstance(e, (ast.Name, ast.Attribute)):
+            v = self.F.expr(e, self.fn)
+            if v is None:
+                raise _Undecided()
+            return v
+        if isinstance(e, (ast.Tuple, ast.List, ast.Set)):
+            return tuple(self.ev(x, u, subst) for x in e.elts)
+        if isinstance(e, ast.UnaryOp) and isinstance(e.op, ast.Not):
+            return not self.ev(e.operand, u, subst)
+        if isinstance(e, ast.UnaryOp) and isinstance(e.op, ast.USub):
+            return -self.ev(e.operand, u, subst)
+        if isinstance(e, ast.BoolOp):
+            res = isinstance(e.op, ast.And)
+            undecided = False
+            for x in e.values:
+                try:
+                    v = bool(self.ev(x, u, subst))
+                except _Undecided:
+                    undecided = True
+                    continue
+                if isinstance(e.op, ast.And) and not v:
+                    return False
+                if isinstance(e.op, ast.Or) and v:
+                    return True
+            if undecided:
+                raise _Undecided()
+            return res
+        if isinstance(e, ast.BinOp) and isinstance(e.op, (ast.Add, ast.Sub, ast.Mult)):
+            a, b = self.ev(e.left, u, subst), self.ev(e.right, u, subst)
+            if not (isinstance(a, int) and isinstance(b, int)):
+                raise _Undecided()
+            return a + b if isinstance(e.op, ast.Add) else (a - b if isinstance(e.op, ast.Sub) else a * b)
+        if isinstance(e, ast.Call) and call_name(e) == "range" and not e.keywords and 1 <= len(e.args) <= 2:
+            vs = [self.ev(x, u, subst) for x in e.args]
+            if not all(isinstance(v, int) for v in vs):
+                raise _Undecided()
+            return range(*vs)
+        if isinstance(e, ast.Call) and call_name(e) == "bool" and len(e.args) == 1 and not e.keywords:
+            return bool(self.ev(e.args[0], u, subst))
+        if isinstance(e, ast.Compare):
+            left = self.ev(e.left, u, subst)
+            for op, rhs in zip(e.ops, e.comparators):
+                right = self.ev(rhs, u, subst)
+                try:
+                    if isinstance(op, ast.Eq):
+                        ok = left == right
+                    elif isinstance(op, ast.NotEq):
+                        ok = left != right
+                    elif isinstance(op, ast.Is):
+                        ok = (left is right) if (left is None or right is None) else (left == right)
+                    elif isinstance(op, ast.IsNot):
+                        ok = (left is not right) if (left is None or right is None) else (left != right)
+                    elif isinstance(op, ast.In):
+                        ok = left in right
+                    elif isinstance(op, ast.NotIn):
+                        ok = left not in right
+                    elif isinstance(op, ast.Lt):
+                        ok = left < right
+                    elif isinstance(op, ast.LtE):
+                        ok = left <= right
+                    elif isinstance(op, ast.Gt):
+                        ok = left > right
+                    elif isinstance(op, ast.GtE):
+                        ok = left >= right
+                    else:
+                        raise _Undecided()
+                except TypeError:
+                    raise _Undecided()
+                if not ok:
+                    return False
+                left = right
+            return True
+        raise _Undecided()
+
+    def _dict_miss(self, n, u):
+        """The node subscripts a dict literal (directly, or a local / module name whose only definition is one) with
+        the version, and `u` is not a key."""
+        if n.ast is None:
+            return False
+        for x in own_nodes(n.ast):
+            if isinstance(x, ast.Subscript) and isinstance(x.ctx, ast.Load) and isinstance(x.slice, ast.Name) \
+                    and x.slice.id in self.vnames:
+                d = x.value
+                if isinstance(d, ast.Name):
+                    ds = self.defs.get(d.id) or self.fn.module.assigns.get(d.id) or []
+                    d = ds[0] if len(ds) == 1 else None
+                if isinstance(d, ast.Dict) and all(k is not None for k in d.keys):
+                    try:
+                        keys = [self.ev(k, u) for k in d.keys]
+                    except _Undecided:
+                        continue
+                    if u not in keys:
+                        return True
+        return False
+
+    def _is_copy(self, n):
+        a = n.ast
+        return isinstance(a, ast.Assign) and isinstance(a.value, ast.Name) and a.value.id in self.vnames and all(
+            isinstance(t, ast.Name) for t in a.targets)
+
+    def walk(self, u):
+        """(set of node ids reached after the version was bound with value u, witness of a path to the normal
+        exit or None)."""
+        seen = set()
+        wit = None
+        for s in self.starts:
+            def transfer(n, lab, nxt, live):
+                if not live:
+                    return live
+                if n.kind == "test" and isinstance(lab, tuple) and self.mentions(n.ast):
+                    try:
+                        val = bool(self.ev(n.ast, u))
+                    except _Undecided:
+                        return live
+                    if (lab[0] == "T") != val:
+                        return None
+                    return live
+                if n.kind not in ("entry", "exit", "raise") and n.id not in self.bind:
+                    if self.vnames & node_stores(n) and not self._is_copy(n):
+                        return False        # the variable no longer holds the version field: nothing is known
+                    if lab != "exc" and self._dict_miss(n, u):
+                        return None
+                return live
+            visited, parent = explore(self.cfg, True, transfer, start=s)
+            self.states += len(visited)
+            seen |= {nid for (nid, _st) in visited}
+            if wit is None:
+                for st in (True, False):
+                    if (self.cfg.exit.id, st) in visited:
+                        wit = witness(self.cfg, parent, (self.cfg.exit.id, st))
+                        break
+        return seen, wit
+
+    def candidates(self, known):
+        """One representative of every interval the reader's comparisons can tell apart, within the field's range."""
+        ks = self.constants() | set(known)
+        out = {0, self.fieldmax}
+        for c in ks:
+            out |= {c - 1, c, c + 1}
+        return sorted(v for v in out if 0 <= v <= self.fieldmax)
+
+
+def first_packed_constant(F, fn, min_values=2):
+    """The constant first values of the struct.pack calls of a writer method (the version it writes)."""
+    out = set()
+    for c in struct_calls(fn, "pack"):
+        if len(c.args) > min_values:
+            v = F.expr(c.args[1], fn)
+            if isinstance(v, int) and not isinstance(v, bool):
+                out.add(v)
     return out
 
 
@@ -1151,6 +1427,181 @@ def run(ctx: Context):
                         "strings decode to the same bytes (e.g. a2b(b'ac') == a2b(b'aa') == b'\\x00').  init_s8 asks "
                         "get_trailing_chars_without_lsbs for 4-(bits%%5) ignored bits; the last quintet of a canonical encoding "
                         "has 5-(bits%%5) zero bits" % "; ".join("length = %d (mod 8): %r" % (k, v) for k, v in sorted(s8_extra.items())))
+
+    # ---- 9. version dispatch of the share-layout readers ---------------------------
+    with ctx.rule("C38.9", "R5", "share layout readers (immutable v1/v2 offset table, SDMF/MDMF version byte): after the "
+                  "version field is unpacked, a value no writer emits cannot reach the normal exit (it reaches a raise), "
+                  "and every value a writer emits can", expected=7) as r:
+        wbp = idx.cls("immutable.layout:WriteBucketProxy")
+        imm_known = set()
+        for ci in [wbp] + list(idx.subclasses(wbp)):
+            m = ci.methods.get("_create_offsets")
+            if m is not None:
+                got = first_packed_constant(F, m, min_values=3)
+                if len(got) != 1:
+                    raise AnchorVanished("%s: the version constant packed first into the offset table (found %s)" % (
+                        m.qual, sorted(got)))
+                imm_known |= got
+        if len(imm_known) < 2:
+            raise AnchorVanished("immutable layout writers (versions found: %s)" % sorted(imm_known))
+        sdmf = F.fo.module_const("interfaces", "SDMF_VERSION")
+        mdmf = F.fo.module_const("interfaces", "MDMF_VERSION")
+        if not (isinstance(sdmf, int) and isinstance(mdmf, int) and sdmf != mdmf):
+            raise AnalysisError("interfaces.SDMF_VERSION / MDMF_VERSION = %r / %r" % (sdmf, mdmf))
+        # the SDMF/MDMF writers put these constants first
+        for q, want in (("mutable.layout:pack_prefix", sdmf), ("mutable.layout:MDMFSlotWriteProxy.get_signable", mdmf)):
+            wfn = idx.func(q)
+            got = first_packed_constant(F, wfn)
+            if got != {want}:
+                raise AnalysisError("%s packs version %s first, interfaces says %d" % (wfn.qual, sorted(got), want))
+        readers = [
+            ("immutable.layout:ReadBucketProxy._parse_offsets", imm_known, "immutable share"),
+            ("immutable.downloader.share:Share._satisfy_offsets", imm_known, "immutable share"),
+            ("immutable.downloader.share:Share._desire_offsets", imm_known, "immutable share"),
+            ("mutable.layout:unpack_share", {sdmf}, "SDMF share"),
+            ("mutable.layout:unpack_sdmf_checkstring", {sdmf}, "SDMF checkstring"),
+            ("mutable.layout:unpack_mdmf_checkstring", {mdmf}, "MDMF checkstring"),
+            ("mutable.layout:MDMFSlotReadProxy._process_encoding_parameters", {sdmf, mdmf}, "mutable share"),
+        ]
+        for q, known, what in readers:
+            fn = idx.func(q)
+            vw = VersionWalk(fn, F)
+            r.site(fn, vw.starts[0].ast, "%s reader, version variable %s, understands %s" % (what, vw.name, sorted(known)))
+            reach = {}
+            accepted, rejected = [], []
+            first_wit = None
+            for u in vw.candidates(known):
+                nodes, wit = vw.walk(u)
+                reach[u] = nodes
+                if u in known and wit is None:
+                    rejected.append(u)
+                if u not in known and wit is not None:
+                    accepted.append(u)
+                    first_wit = first_wit or wit
+            r.count(vw.states)
+            if accepted:
+                # which known layout the stray value is read with: nodes only that version reaches
+                used = []
+                for k in sorted(known):
+                    own = reach[k] - set().union(*[reach[j] for j in known if j != k]) if len(known) > 1 else set()
+                    if own and own <= reach[accepted[0]]:
+                        used.append(k)
+                r.violation(fn, fn.loc(vw.starts[0].ast), "%s header with version field %s (writers emit only %s) is not "
+                            "rejected: after `%s` no test pins %s to a known constant on the path %s%s" % (
+                                what, "/".join(str(v) for v in accepted[:6]), sorted(known), src(fn, vw.starts[0].ast)[:60],
+                                vw.name, first_wit.brief(),
+                                (" ; it is read with the version-%s layout" % "/".join(map(str, used))) if used else ""),
+                            first_wit)
+            if rejected:
+                r.violation(fn, fn.loc(vw.starts[0].ast), "%s header with version %s, which the writers emit, can never reach "
+                            "the normal exit of %s: valid shares are rejected" % (what, rejected, fn.name))
+
+    # ---- 10. schema lookup of the storage containers --------------------------------
+    with ctx.rule("C38.10", "R5", "storage containers: the schema lookups return a schema only under the fact that it "
+                  "matches the header (version == schema.version / magic_matches), every other header gives None; the "
+                  "container classes raise on None before anything else is read, is_valid_header is false on None",
+                  expected=6) as r:
+        lookups = {}
+        for q, kind in (("storage.immutable_schema:schema_from_version", "version"),
+                        ("storage.mutable_schema:schema_from_header", "magic")):
+            fn = idx.func(q)
+            lookups[fn.name] = fn
+            cfg = fn.cfg()
+            fnn = FlowNorm(fn)
+            p0 = first_positional_params(fn)[0]
+            rets = [n for n in cfg.find(is_return) if not (n.ast.value is None or (
+                isinstance(n.ast.value, ast.Constant) and n.ast.value.value is None))]
+            if not rets:
+                raise AnchorVanished("%s returns no schema" % fn.qual)
+            r.site(fn, rets[0].ast, "lookup by %s" % kind)
+            r.count(len(cfg.nodes))
+            loopvars = {}
+            for n in cfg.nodes:
+                if n.kind == "iter" and isinstance(n.ast.target, ast.Name):
+                    loopvars[n.ast.target.id] = n
+            for rn in rets:
+                v = rn.ast.value
+                if not (isinstance(v, ast.Name) and v.id in loopvars):
+                    r.violation(fn, fn.loc(rn.ast), "%s returns %s, which is not a schema selected by comparing it with "
+                                "the header: a container of an unknown version gets this schema" % (fn.name, src(fn, v)))
+                    continue
+                lv = v.id
+
+                def matches(n, lab, _lv=lv, _fnn=fnn, _kind=kind, _p0=p0):
+                    f = _fnn.edge_fact(n, lab)
+                    if not f:
+                        return False
+                    if _kind == "version":
+                        return f[0] == "==" and {f[1], f[2]} == {_lv + ".version", _p0}
+                    return f[0] == "truth" and f[1] == norm_src("%s.magic_matches(%s)" % (_lv, _p0))
+                for (tn, wpath) in find_path_avoiding(cfg, lambda n, _rn=rn: n is _rn, gate_edge=matches,
+                                                      kill=lambda n, _lv=lv: n.kind == "iter" and _lv in node_stores(n)):
+                    r.violation(fn, fn.loc(tn.ast), "%s returns the schema %s without the fact that it matches the header "
+                                "(%s) on the path %s" % (fn.name, lv, "%s.version == %s" % (lv, p0) if kind == "version"
+                                                         else "%s.magic_matches(%s)" % (lv, p0), wpath.brief()), wpath)
+        for q, lname in (("storage.immutable:ShareFile", "schema_from_version"), ("storage.mutable:MutableShareFile", "schema_from_header")):
+            # __init__: None -> raise
+            fn = idx.func(q + ".__init__")
+            cfg = fn.cfg()
+            fnn = FlowNorm(fn)
+            stores_ = []
+            for n in cfg.nodes:
+                if n.kind == "stmt" and isinstance(n.ast, ast.Assign) and len(n.ast.targets) == 1 \
+                        and isinstance(n.ast.value, ast.Call) and call_tail(n.ast.value) == lname:
+                    stores_.append(n)
+            if not stores_:
+                raise AnchorVanished("%s no longer looks the schema up with %s" % (fn.qual, lname))
+            for sn in stores_:
+                r.site(fn, sn.ast, "open path")
+                tpath = attr_path(sn.ast.targets[0])
+                accept = {tpath, fnn.norm(sn, sn.ast.value)}
+
+                def not_none(n, lab, _fnn=fnn, _accept=accept):
+                    f = _fnn.edge_fact(n, lab)
+                    if not f:
+                        return False
+                    if f[0] == "is not" and "None" in (f[1], f[2]):
+                        return (f[2] if f[1] == "None" else f[1]) in _accept
+                    return f[0] == "truth" and f[1] in _accept
+                bad = find_path_avoiding(cfg, lambda n: n.kind == "exit", gate_edge=not_none, start=sn,
+                                         kill=lambda n, _sn=sn, _t=tpath: n is not _sn and _t in node_stores(n))
+                r.count(len(cfg.nodes))
+                for (tn, wpath) in bad:
+                    r.violation(fn, fn.loc(sn.ast), "%s.__init__ completes although %s returned None (unknown container "
+                                "version): no `%s is not None` fact on the path %s ; the file is then read with whatever "
+                                "layout the attributes default to" % (fn.cls.name, lname, tpath, wpath.brief()), wpath)
+            # is_valid_header: false when the lookup fails
+            iv = idx.func(q + ".is_valid_header")
+            calls = calls_in_func(iv, lname)
+            if len(calls) != 1:
+                raise AnchorVanished("%s: %d calls of %s" % (iv.qual, len(calls), lname))
+            r.site(iv, calls[0], "validity test")
+            hp = first_positional_params(iv)[0]
+            a0 = calls[0].args[0] if calls[0].args else None
+            if lname == "schema_from_version":
+                vb = {nm for nm, _c in version_bindings(iv).values()}
+                r.require(isinstance(a0, ast.Name) and a0.id in vb, iv, iv.loc(calls[0]), "the schema is looked up with %s, "
+                          "which is not the version field unpacked from the start of %s" % (src(iv, a0) if a0 is not None else None, hp))
+                ev_ = VersionWalk(iv, F).ev
+            else:
+                r.require(attr_path(a0) == hp, iv, iv.loc(calls[0]), "the schema is looked up with %s, not with the header %s" % (
+                    src(iv, a0) if a0 is not None else None, hp))
+                vw_ = VersionWalk.__new__(VersionWalk)
+                vw_.fn, vw_.F, vw_.vnames, vw_.defs = iv, F, set(), all_defs(iv)
+                ev_ = vw_.ev
+            rets = [n.value for n in func_own_nodes(iv) if isinstance(n, ast.Return)]
+            if not rets:
+                raise AnchorVanished("%s returns nothing" % iv.qual)
+            for v in rets:
+                if v is None:
+                    continue
+                try:
+                    res = bool(ev_(v, None, {id(calls[0]): None}))
+                except _Undecided:
+                    res = None
+                r.require(res is False, iv, iv.loc(v), "is_valid_header returns %s, which is %s when %s finds no schema: a "
+                          "header of an unknown version is accepted as this container type" % (
+                              src(iv, v), "true" if res else "not decidably false", lname))
 
 # -- small helpers used above ------------------------------------------------------
 def _returns_with(self, fn, local):
